@@ -555,6 +555,10 @@ func (vc *VC) enterLoop(fr *Frame, li *loopInfo) {
 		t := vc.evalClause(fr, est, inv, h, nil)
 		vc.oblige(est, fr, "inv.entry", loopTag(li, inv, i), t, inv.Src, h.Instrs[0].Pos())
 	}
+	for i, c := range spec.AtEntry {
+		t := vc.evalClause(fr, est, c, h, nil)
+		vc.obligeNoAssume(est, fr, "atentry", loopTag(li, c, i), t, c.Src)
+	}
 	// 2. find what the loop modifies (dry run from a fully havocked state)
 	written, all := vc.loopWrites(fr, li, est)
 	// 3. havoc
